@@ -54,6 +54,19 @@ logger = logging.getLogger(__name__)
 NV = TypeVar("NV", Node, Var)
 
 
+def _remove_model_seed_inputs(nodes: Iterable[Node]) -> None:
+    """Removes the ``_model_*_seed`` inputs a previous build added to the nodes."""
+    for node in nodes:
+        seed = node.kwinputs.get("seed")
+
+        if seed is None or node.model:
+            continue
+
+        if seed.name.startswith("_model_") and seed.name.endswith("_seed"):
+            kwinputs = {kw: nd for kw, nd in node.kwinputs.items() if kw != "seed"}
+            node.set_inputs(*node.inputs, **kwinputs)
+
+
 def _reduced_sum(*args: Array) -> Array:
     """Computes the sum after reducing arrays to scalars."""
     reduced = (arg.sum() if hasattr(arg, "sum") else arg for arg in args)
@@ -450,6 +463,10 @@ class GraphBuilder:
         >>> gb.vars
         []
         """
+        nodes, _vars = self._all_nodes_and_vars()
+
+        # nodes that were part of a model before may still carry its seed inputs
+        _remove_model_seed_inputs(nodes)
         nodes, _vars = self._all_nodes_and_vars()
 
         if not nodes:
